@@ -221,7 +221,12 @@ static void execOp(const std::string& actor, size_t idx, const js::Value& op) {
 		} else if (name == "destroy") {
 			if (i < R->slots.size()) {
 				usim::api_enter("destroy");
-				R->slots[i].interp = Interpreter();
+				{
+					// empty the shared slot first, then let our private handle die: no other
+					// actor can copy a handle to an interpreter that is already being destroyed
+					Interpreter victim = R->slots[i].interp;
+					R->slots[i].interp = Interpreter();
+				}
 				usim::api_leave();
 			}
 		} else if (name == "state") {
@@ -253,6 +258,8 @@ static void execOp(const std::string& actor, size_t idx, const js::Value& op) {
 			result = doTransform(interp, op);
 		} else if (name == "sleep") {
 			usim::sleep_ms((uint64_t)op["ms"].i64(1));
+		} else if (name == "mark") {
+			tr::Rec(actor, "mark").str(op["name"].str());
 		} else if (name == "settle") {
 			usim::settle();
 		} else if (name == "yield") {
@@ -412,6 +419,7 @@ void runPlan(const js::Value& plan) {
 			{ tr::Rec("main", "op<").num(-1).str("destroy").num((long long)i); }
 			usim::api_enter("destroy");
 			try {
+				Interpreter victim = run.slots[i].interp;
 				run.slots[i].interp = Interpreter();
 			} catch (...) {
 				recordException("main", "destroy");
